@@ -13,4 +13,5 @@ func init() {
 	mut("C20", "direct-parsed-bound", "body/body_modifier.go", "\t\tranges = append(ranges, []int{start, end})\n", "\t\tranges = append(ranges, []int{start, end})\n\t\tif len(sranges) == 1 && end+1 <= cap(m.body) {\n\t\t\t_ = m.body[start : end+1]\n\t\t}\n", "C20.R1", "checked pairs only")
 	mut("C20", "multipart-scratch-on-modifier", "body/body_modifier.go", "\tboundary    string\n}\n\x00\tvar mpbody bytes.Buffer\n\tmpw := multipart.NewWriter(&mpbody)\n", "\tboundary    string\n\tmpbuf       bytes.Buffer\n}\n\x00\tmpbody := &m.mpbuf\n\tmpbody.Reset()\n\tmpw := multipart.NewWriter(mpbody)\n", "C20.R5", "body assignment #3")
 	twin("C20", "multipart-buffer-on-heap", "body/body_modifier.go", "\tvar mpbody bytes.Buffer\n\tmpw := multipart.NewWriter(&mpbody)\n", "\tmpbody := new(bytes.Buffer)\n\tmpw := multipart.NewWriter(mpbody)\n")
+	mut("C20", "path-trimmed-after-clean", "static/static_file_modifier.go", "\tfpth := filepath.Join(s.rootPath, reqpth)", "\tfpth := filepath.Join(s.rootPath, strings.Replace(reqpth, \"%2e\", \".\", -1))", "C20.R3", "cleaned path itself")
 }
